@@ -1,4 +1,233 @@
 import ClipVerif.Model.Trim
 import ClipVerif.Model.Conv
 namespace Proofs.C15
+open Gen Model
+
+/-! ### index loops -/
+
+theorem skipFront_bound (p : Array Point64) (l i : Nat) :
+    i ≤ trimSkipFront p l i ∧ (trimSkipFront p l i + 1 ≤ l ∨ trimSkipFront p l i = i) := by
+  fun_induction trimSkipFront p l i with
+  | case1 i h hc ih => omega
+  | case2 i h hc => omega
+  | case3 i h => omega
+
+theorem skipBack_bound (p : Array Point64) (i l : Nat) :
+    trimSkipBack p i l ≤ l ∧ (i + 1 ≤ trimSkipBack p i l ∨ trimSkipBack p i l = l) := by
+  fun_induction trimSkipBack p i l with
+  | case1 l h hc ih => omega
+  | case2 l h hc => omega
+  | case3 l h => omega
+
+/-! ### main loop: appends a sub-sequence of `p[i .. l-2]` -/
+
+theorem main_sub (p : Array Point64) (l i : Nat) (last : Point64) (res : Array Point64)
+    (hl : l ≤ p.size) :
+    ∃ s : List Point64, (trimMain p l i last res).2.toList = res.toList ++ s ∧
+      s.Sublist ((p.toList.take (l - 1)).drop i) := by
+  fun_induction trimMain p l i last res with
+  | case1 i last res h hc ih =>
+    obtain ⟨s, hs, hsub⟩ := ih
+    refine ⟨s, hs, ?_⟩
+    have hlen : i < (p.toList.take (l - 1)).length := by simp; omega
+    rw [List.drop_eq_getElem_cons hlen]
+    exact List.Sublist.cons _ hsub
+  | case2 i last res h hc ih =>
+    obtain ⟨s, hs, hsub⟩ := ih
+    have hi : i < p.size := by omega
+    refine ⟨p[i] :: s, ?_, ?_⟩
+    · rw [hs]; simp [hi]
+    · have hlen : i < (p.toList.take (l - 1)).length := by simp; omega
+      rw [List.drop_eq_getElem_cons hlen]
+      have : (p.toList.take (l - 1))[i] = p[i] := by simp
+      rw [this]
+      exact List.Sublist.cons_cons _ hsub
+  | case3 i last res h =>
+    exact ⟨[], by simp, List.nil_sublist _⟩
+
+/-- `[p[i]] ++ s ++ [p[l-1]]` is a sub-sequence of `p.drop i` when `s ⊑ p[i+1 .. l-2]` -/
+theorem frame_sub (p : Array Point64) (l i : Nat) (s : List Point64)
+    (hl : l ≤ p.size) (hil : i + 2 ≤ l)
+    (hs : s.Sublist ((p.toList.take (l - 1)).drop (i + 1))) :
+    (p[i]! :: s ++ [p[l-1]!]).Sublist (p.toList.drop i) := by
+  have hi : i < p.size := by omega
+  have hl1 : l - 1 < p.size := by omega
+  have e1 : p.toList.drop i = (p.toList.take (l - 1)).drop i ++ p.toList.drop (l - 1) := by
+    conv => lhs; rw [← List.take_append_drop (l - 1) p.toList]
+    apply List.drop_append_of_le_length
+    simp; omega
+  have hlen : i < (p.toList.take (l - 1)).length := by simp; omega
+  have e2 : p.toList.drop (l - 1) = p[l-1] :: p.toList.drop (l - 1 + 1) := by
+    rw [List.drop_eq_getElem_cons (by simpa using hl1)]; simp
+  rw [e1, List.drop_eq_getElem_cons hlen, e2]
+  have : (p.toList.take (l - 1))[i] = p[i] := by simp
+  rw [this]
+  simp only [hi, hl1, getElem!_pos, List.cons_append]
+  apply List.Sublist.cons_cons
+  apply List.Sublist.append hs
+  exact List.Sublist.cons_cons _ (List.nil_sublist _)
+
+/-! ### closing loop only pops -/
+
+theorem close_prefix (res : Array Point64) : (trimClose res).toList <+: res.toList := by
+  fun_induction trimClose res with
+  | case1 res h hc ih =>
+    refine List.IsPrefix.trans ih ?_
+    simp only [Array.toList_pop]
+    exact List.dropLast_prefix _
+  | case2 res h hc => exact List.prefix_refl _
+  | case3 res h => exact List.prefix_refl _
+
+/-! ### the open case -/
+
+theorem open_eq (path : Array Point64) :
+    trimCollinear path true =
+      if path.size < 3 then
+        (if path.size < 2 || path[0]! == path[1]! then #[] else path)
+      else (trimMain path path.size 1 path[0]! #[path[0]!]).2.push path[path.size - 1]! := by
+  unfold trimCollinear
+  simp only [Bool.not_true, Bool.false_eq_true, ↓reduceIte, Nat.sub_zero, Nat.not_lt_zero,
+    or_false, Bool.false_or, Nat.zero_add]
+
+theorem open_sublist (path : Array Point64) :
+    (trimCollinear path true).toList.Sublist path.toList := by
+  rw [open_eq]
+  split
+  · split
+    · simp
+    · exact List.Sublist.refl _
+  · rename_i h
+    obtain ⟨s, hs, hsub⟩ := main_sub path path.size 1 path[0]! #[path[0]!] (Nat.le_refl _)
+    have := frame_sub path path.size 0 s (Nat.le_refl _) (by omega) hsub
+    simpa [hs] using this
+
+theorem open_ends (path : Array Point64) (h : (trimCollinear path true).size ≠ 0) :
+    (trimCollinear path true)[0]? = path[0]? ∧ (trimCollinear path true).back? = path.back? := by
+  rw [open_eq] at h ⊢
+  by_cases h3 : path.size < 3
+  · rw [if_pos h3] at h ⊢
+    split
+    · rename_i h2; rw [if_pos h2] at h; simp at h
+    · exact ⟨rfl, rfl⟩
+  · rw [if_neg h3]
+    obtain ⟨s, hs, -⟩ := main_sub path path.size 1 path[0]! #[path[0]!] (Nat.le_refl _)
+    constructor
+    · rw [← Array.getElem?_toList, Array.toList_push, hs]
+      have : 0 < path.size := by omega
+      simp [this]
+    · rw [Array.back?_push, Array.back?_eq_getElem?]
+      have : path.size - 1 < path.size := by omega
+      simp [this]
+
+/-! ### the closed case -/
+
+theorem closed_short (path : Array Point64) (h : path.size < 3) : trimCollinear path false = #[] := by
+  unfold trimCollinear
+  have hb := (skipBack_bound path (trimSkipFront path path.size 0) path.size).1
+  simp only [Bool.not_false, ↓reduceIte, Bool.true_or]
+  rw [if_pos (by omega)]
+
+theorem closed_cyclic_sublist (path : Array Point64) :
+    ∃ k, (trimCollinear path false).toList.Sublist (path.toList.drop k ++ path.toList.take k) := by
+  refine ⟨trimSkipFront path path.size 0, ?_⟩
+  unfold trimCollinear
+  simp only [Bool.not_false, ↓reduceIte, Bool.true_or, Bool.false_eq_true]
+  generalize hi : trimSkipFront path path.size 0 = i
+  generalize hl : trimSkipBack path i path.size = l
+  have hlb : l ≤ path.size := by rw [← hl]; exact (skipBack_bound path i path.size).1
+  split
+  · simp
+  · rename_i hc
+    have hil : i + 3 ≤ l := by omega
+    obtain ⟨s, hs, hsub⟩ := main_sub path l (i + 1) path[i]! #[path[i]!] hlb
+    have hframe := frame_sub path l i s hlb (by omega) hsub
+    have hres : ((trimMain path l (i + 1) path[i]! #[path[i]!]).2.toList ++ [path[l-1]!]).Sublist
+        (path.toList.drop i ++ path.toList.take i) := by
+      rw [hs]
+      refine List.Sublist.trans ?_ (List.sublist_append_left _ _)
+      simpa using hframe
+    split
+    · simpa using hres
+    · split
+      · simp
+      · refine List.Sublist.trans (close_prefix _).sublist ?_
+        exact List.Sublist.trans (List.sublist_append_left _ _) hres
+
+/-! ### `trim_closed_size` is FALSE for the generated predicate: witnesses and the exact residue -/
+
+/-- smallest witness (3 vertices; needs a coordinate difference of exactly 1: `triSign 1 = 0`) -/
+def sizeWitness : Array Point64 := #[⟨0, 0⟩, ⟨3, -3⟩, ⟨1, -1⟩]
+/-- a witness without any coordinate difference of 1 must overflow: difference `-2^63` -/
+def sizeWitnessOvf : Array Point64 := #[⟨0, 0⟩, ⟨5, 7⟩, ⟨0, 0⟩, ⟨-9223372036854775808, 5⟩]
+
+theorem closed_size_witness : trimCollinear sizeWitness false = #[⟨0, 0⟩, ⟨1, -1⟩] := by
+  decide +kernel
+theorem closed_size_witness_ovf :
+    trimCollinear sizeWitnessOvf false = #[⟨0, 0⟩, ⟨-9223372036854775808, 5⟩] := by
+  decide +kernel
+
+theorem closed_size_false :
+    ¬ ∀ path : Array Point64,
+      (trimCollinear path false).size = 0 ∨ 3 ≤ (trimCollinear path false).size := by
+  intro h
+  have := h sizeWitness
+  rw [closed_size_witness] at this
+  simp at this
+
+theorem main_last (p : Array Point64) (l i : Nat) (last : Point64) (res : Array Point64)
+    (h : res.back? = some last) :
+    (trimMain p l i last res).2.back? = some (trimMain p l i last res).1 := by
+  fun_induction trimMain p l i last res with
+  | case1 i last res _ _ ih => exact ih h
+  | case2 i last res _ _ ih => exact ih Array.back?_push
+  | case3 i last res _ => exact h
+
+/-- what *is* true: a closed result has 0 or ≥ 3 vertices, or it is a pair `#[a, b]` of input
+    vertices for which the predicate denies that `a, b, a` are collinear -/
+theorem closed_size_weak (path : Array Point64) :
+    (trimCollinear path false).size = 0 ∨ 3 ≤ (trimCollinear path false).size ∨
+      ∃ a b, trimCollinear path false = #[a, b] ∧ a ∈ path ∧ b ∈ path ∧ isCollinear a b a = false := by
+  unfold trimCollinear
+  simp only [Bool.not_false, ↓reduceIte, Bool.true_or, Bool.false_eq_true]
+  generalize hi : trimSkipFront path path.size 0 = i
+  generalize hl : trimSkipBack path i path.size = l
+  have hlb : l ≤ path.size := by rw [← hl]; exact (skipBack_bound path i path.size).1
+  split
+  · simp
+  · rename_i hc
+    have hil : i + 3 ≤ l := by omega
+    obtain ⟨s, hs, -⟩ := main_sub path l (i + 1) path[i]! #[path[i]!] hlb
+    have hlast := main_last path l (i + 1) path[i]! #[path[i]!] (by simp)
+    generalize trimMain path l (i + 1) path[i]! #[path[i]!] = r at hs hlast
+    obtain ⟨last, res⟩ := r
+    simp only at hs hlast ⊢
+    split
+    · rename_i hcol
+      cases s with
+      | cons x s =>
+        right; left
+        have : res.size = (res.toList).length := by simp
+        rw [Array.size_push, this, hs]; simp
+      | nil =>
+        right; right
+        have hres : res = #[path[i]!] := by
+          apply Array.ext'; simpa using hs
+        subst hres
+        simp at hlast
+        subst hlast
+        refine ⟨path[i]!, path[l-1]!, by simp, ?_, ?_, ?_⟩
+        · rw [getElem!_pos path i (by omega)]; exact Array.getElem_mem _
+        · rw [getElem!_pos path (l-1) (by omega)]; exact Array.getElem_mem _
+        · simpa using hcol
+    · split
+      · simp
+      · right; left; omega
+
+/-- in particular a closed result never has exactly one vertex -/
+theorem closed_size_ne_one (path : Array Point64) : (trimCollinear path false).size ≠ 1 := by
+  rcases closed_size_weak path with h | h | ⟨a, b, h, -⟩
+  · omega
+  · omega
+  · rw [h]; simp
+
 end Proofs.C15
